@@ -26,23 +26,51 @@ Definition obj_written (t cur : store) (a : addr) (o : obj) : Prop :=
 Definition trivial_dirty (t : store) (a : addr) (o : obj) : Prop :=
   forall k v, dirty o k = Some v -> v = comm t a o k.
 
-Record R (s : sdb) (r : rstate) : Prop := {
-  R_aux : auxeq (aux s) (r_aux r);
-  R_cnt : forall a c, dirt s a = Some c -> 0 <= c;
-  R_acc : forall a, match lookup s a, r_accs r a with
+(** everything the simulation says about ONE address *)
+Record Rat (s : sdb) (r : rstate) (a : addr) : Prop := {
+  A_cnt : forall c, dirt s a = Some c -> 0 <= c;
+  A_dl : dirt s a <> None -> lookup s a <> None;
+  A_acc : match lookup s a, r_accs r a with
+          | Some o, Some x => omatch o x
+          | None, None => True
+          | _, _ => False end;
+  A_sto : forall k, r_stor r a k = match lookup s a with
+                                   | Some o => st (txs s) a o k
+                                   | None => stor (cur_store s) a k end;
+  A_absent : lookup s a = None -> forall k, stor (cur_store s) a k = stor (txs s) a k;
+  A_written : forall o, lookup s a = Some o -> clean (dirt s a) -> obj_written (txs s) (cur_store s) a o;
+  A_good : forall o, lookup s a = Some o -> obj_good (txs s) (cur_store s) a o;
+  A_wr : r_wr r a = false -> rs (r_get r a) = false ->
+         (forall k, stor (cur_store s) a k = stor (txs s) a k) /\
+         (forall o, lookup s a = Some o -> trivial_dirty (txs s) a o)
+}.
+
+Definition R (s : sdb) (r : rstate) : Prop := auxeq (aux s) (r_aux r) /\ forall a, Rat s r a.
+
+Lemma R_aux s r : R s r -> auxeq (aux s) (r_aux r). Proof. intros [H _]; exact H. Qed.
+Lemma R_cnt s r : R s r -> forall a c, dirt s a = Some c -> 0 <= c.
+Proof. intros [_ H] a. apply (A_cnt s r a (H a)). Qed.
+Lemma R_dl s r : R s r -> forall a, dirt s a <> None -> lookup s a <> None.
+Proof. intros [_ H] a. apply (A_dl s r a (H a)). Qed.
+Lemma R_acc s r : R s r -> forall a, match lookup s a, r_accs r a with
                     | Some o, Some x => omatch o x
                     | None, None => True
-                    | _, _ => False end;
-  R_sto : forall a k, r_stor r a k = match lookup s a with
+                    | _, _ => False end.
+Proof. intros [_ H] a. apply (A_acc s r a (H a)). Qed.
+Lemma R_sto s r : R s r -> forall a k, r_stor r a k = match lookup s a with
                                      | Some o => st (txs s) a o k
-                                     | None => stor (cur_store s) a k end;
-  R_absent : forall a, lookup s a = None -> forall k, stor (cur_store s) a k = stor (txs s) a k;
-  R_written : forall a o, lookup s a = Some o -> clean (dirt s a) -> obj_written (txs s) (cur_store s) a o;
-  R_good : forall a o, lookup s a = Some o -> obj_good (txs s) (cur_store s) a o;
-  R_wr : forall a, r_wr r a = false -> rs (r_get r a) = false ->
+                                     | None => stor (cur_store s) a k end.
+Proof. intros [_ H] a. apply (A_sto s r a (H a)). Qed.
+Lemma R_absent s r : R s r -> forall a, lookup s a = None -> forall k, stor (cur_store s) a k = stor (txs s) a k.
+Proof. intros [_ H] a. apply (A_absent s r a (H a)). Qed.
+Lemma R_written s r : R s r -> forall a o, lookup s a = Some o -> clean (dirt s a) -> obj_written (txs s) (cur_store s) a o.
+Proof. intros [_ H] a. apply (A_written s r a (H a)). Qed.
+Lemma R_good s r : R s r -> forall a o, lookup s a = Some o -> obj_good (txs s) (cur_store s) a o.
+Proof. intros [_ H] a. apply (A_good s r a (H a)). Qed.
+Lemma R_wr s r : R s r -> forall a, r_wr r a = false -> rs (r_get r a) = false ->
                    (forall k, stor (cur_store s) a k = stor (txs s) a k) /\
-                   (forall o, lookup s a = Some o -> trivial_dirty (txs s) a o)
-}.
+                   (forall o, lookup s a = Some o -> trivial_dirty (txs s) a o).
+Proof. intros [_ H] a. apply (A_wr s r a (H a)). Qed.
 
 Lemma auxeq_sym x y : auxeq x y -> auxeq y x.
 Proof. intros (A&B&C&D). repeat split; intros; congruence. Qed.
@@ -57,21 +85,24 @@ Lemma R_mono s s' r c : R s r -> le s s' -> R s' (r_with_calls r c).
 Proof.
   intros HR (J&T&C&X&O&F). destruct (F eq_refl) as [S D].
   assert (L : forall a, lookrel s s' a) by (intros a; apply O; reflexivity).
-  constructor; simpl.
-  - eapply auxeq_trans; [apply auxeq_sym; exact X | apply HR].
-  - intros a c0 Hc. destruct (D a) as [E|[E1 E2]]; [|congruence].
+  split; [simpl; eapply auxeq_trans; [apply auxeq_sym; exact X | apply (R_aux s r HR)]|].
+  intros a. specialize (L a). unfold lookrel in L. constructor; simpl.
+  - intros c0 Hc. destruct (D a) as [E|[E1 E2]]; [|congruence].
     eapply (R_cnt s r HR a). rewrite E. exact Hc.
-  - intros a. pose proof (R_acc s r HR a) as Ha. specialize (L a). unfold lookrel in L.
+  - intros Hd. assert (Hd0 : dirt s a <> None) by (destruct (D a) as [E|[E1 E2]]; congruence).
+    pose proof (R_dl s r HR a Hd0) as Hl.
+    destruct (lookup s a), (lookup s' a); try contradiction; congruence.
+  - pose proof (R_acc s r HR a) as Ha.
     destruct (lookup s a) as [o|], (lookup s' a) as [o'|]; try contradiction; auto.
     destruct (r_accs r a); [|contradiction]. destruct L as (L1&L2&L3&L4&_), Ha as (A1&A2&A3&A4).
     repeat split; congruence.
-  - intros a k. rewrite (R_sto s r HR a k). specialize (L a). unfold lookrel in L.
+  - intros k. rewrite (R_sto s r HR a k).
     destruct (lookup s a) as [o|], (lookup s' a) as [o'|]; try contradiction.
     + rewrite <- T. symmetry. apply ole_st; exact L.
     + rewrite S; reflexivity.
-  - intros a Hl k. specialize (L a). unfold lookrel in L. rewrite Hl in L.
+  - intros Hl k. rewrite Hl in L.
     destruct (lookup s a) eqn:Hs; [contradiction|]. rewrite <- S, <- T. apply (R_absent s r HR a Hs).
-  - intros a o' Hl Hcl. specialize (L a). unfold lookrel in L. rewrite Hl in L.
+  - intros o' Hl Hcl. rewrite Hl in L.
     destruct (lookup s a) as [o|] eqn:Hs; [|contradiction].
     assert (Hcl0 : clean (dirt s a)).
     { destruct (D a) as [E|[E1 E2]]; [rewrite E; exact Hcl | right; exact E1]. }
@@ -81,7 +112,7 @@ Proof.
     destruct Hw as [Hw1 Hw2]. split.
     + rewrite Hw1. unfold acc_of_obj. congruence.
     + intros k. rewrite <- Hw2. apply ole_st. exact Lole.
-  - intros a o' Hl. specialize (L a). unfold lookrel in L. rewrite Hl in L.
+  - intros o' Hl. rewrite Hl in L.
     destruct (lookup s a) as [o|] eqn:Hs; [|contradiction].
     destruct (R_good s r HR a o Hs) as (G1&G2&G3). rewrite <- S, <- T.
     pose proof L as (L1&L2&L3&L4&L5). split; [|split].
@@ -91,8 +122,8 @@ Proof.
     + intros k Hd. destruct (L5 k) as [Lo [E|(E1&E2&E3)]]; [|exact E3].
       assert (Ho : origin o k <> None) by (apply G3; congruence).
       destruct Lo as [E'|[E1' _]]; congruence.
-  - intros a Hw Hs. destruct (R_wr s r HR a Hw Hs) as [W1 W2]. rewrite <- S, <- T. split; [exact W1|].
-    intros o' Hl. specialize (L a). unfold lookrel in L. rewrite Hl in L.
+  - intros Hw Hs. destruct (R_wr s r HR a Hw Hs) as [W1 W2]. rewrite <- S, <- T. split; [exact W1|].
+    intros o' Hl. rewrite Hl in L.
     destruct (lookup s a) as [o|] eqn:Hs'; [|contradiction].
     intros k v Hv. rewrite (ole_comm _ _ _ _ k L). destruct L as (_&_&_&_&L5).
     destruct (L5 k) as [_ [E|(E1&E2&_)]]; [apply (W2 o eq_refl k v); congruence | congruence].
@@ -119,40 +150,47 @@ Definition updd (s' : sdb) (r' : rstate) (x : addr) : Prop :=
     (r_wr r' x = false -> rs y' = false ->
        (forall k, stor (cur_store s') x k = stor (txs s') x k) /\ trivial_dirty (txs s') x o').
 
+Lemma Rat_unch s s' r r' x : Rat s r x -> txs s' = txs s -> unch s s' r r' x -> Rat s' r' x.
+Proof.
+  intros HA T (U1&U2&U3&U4&U5&U6&U7). constructor.
+  - rewrite U2. apply (A_cnt s r x HA).
+  - rewrite U1, U2. apply (A_dl s r x HA).
+  - rewrite U1, U5. apply (A_acc s r x HA).
+  - intros k. rewrite U1, U6, T, U4. apply (A_sto s r x HA k).
+  - intros Hl k. rewrite U4, T. apply (A_absent s r x HA). congruence.
+  - intros o Hl Hcl. rewrite U1 in Hl. rewrite U2 in Hcl. pose proof (A_written s r x HA o Hl Hcl) as Hw.
+    unfold obj_written in *. rewrite T, U3. destruct (suicided o).
+    + destruct Hw as [W1 W2]. split; [exact W1|]. intros k. rewrite U4. apply W2.
+    + destruct Hw as [W1 W2]. split; [exact W1|]. intros k. rewrite U4. apply W2.
+  - intros o Hl. rewrite U1 in Hl. destruct (A_good s r x HA o Hl) as (G1&G2&G3). rewrite T.
+    split; [|split; assumption]. intros Hs k Hd. rewrite U4. apply G1; assumption.
+  - intros Hw Hs. rewrite U7 in Hw. unfold r_get in Hs. rewrite U5 in Hs.
+    destruct (A_wr s r x HA Hw Hs) as [W1 W2]. rewrite T. split.
+    + intros k. rewrite U4. apply W1.
+    + intros o Hl. rewrite U1 in Hl. apply W2; exact Hl.
+Qed.
+
+Lemma Rat_gen s' r' x : updd s' r' x -> Rat s' r' x.
+Proof.
+  intros (o'&y'&L&A&M&Hp&Hwr&St&G&W). constructor.
+  - exact Hp.
+  - intros _. congruence.
+  - rewrite L, A. exact M.
+  - intros k. rewrite L. apply St.
+  - congruence.
+  - intros o Hl Hcl. rewrite L in Hl. inversion Hl; subst. apply Hwr; exact Hcl.
+  - intros o Hl. rewrite L in Hl. inversion Hl; subst. exact G.
+  - intros Hw Hs. unfold r_get in Hs. rewrite A in Hs. destruct (W Hw Hs) as [W1 W2]. split; [exact W1|].
+    intros o Hl. rewrite L in Hl. inversion Hl; subst. exact W2.
+Qed.
+
 Lemma R_step s s' r r' :
   R s r -> txs s' = txs s -> auxeq (aux s') (r_aux r') ->
   (forall x, unch s s' r r' x \/ updd s' r' x) -> R s' r'.
 Proof.
-  intros HR T X H. constructor.
-  - exact X.
-  - intros a c Hc. destruct (H a) as [(_&U2&_)|(o'&y'&_&_&_&Hp&_)].
-    + eapply (R_cnt s r HR a). rewrite <- U2. exact Hc.
-    + apply Hp; exact Hc.
-  - intros a. destruct (H a) as [(U1&_&_&_&U5&_)|(o'&y'&L&A&M&_)].
-    + rewrite U1, U5. apply (R_acc s r HR a).
-    + rewrite L, A. exact M.
-  - intros a k. destruct (H a) as [(U1&_&_&U4&_&U6&_)|(o'&y'&L&_&_&_&_&St&_)].
-    + rewrite U1, U6, T, U4. apply (R_sto s r HR a k).
-    + rewrite L. apply St.
-  - intros a Hl k. destruct (H a) as [(U1&_&_&U4&_)|(o'&y'&L&_)]; [|congruence].
-    rewrite U4, T. apply (R_absent s r HR a). congruence.
-  - intros a o Hl Hcl. destruct (H a) as [(U1&U2&U3&U4&_)|(o'&y'&L&_&_&_&Hwr&_)].
-    + rewrite U1 in Hl. rewrite U2 in Hcl. pose proof (R_written s r HR a o Hl Hcl) as Hw.
-      unfold obj_written in *. rewrite T, U3. destruct (suicided o).
-      * destruct Hw as [W1 W2]. split; [exact W1|]. intros k. rewrite U4. apply W2.
-      * destruct Hw as [W1 W2]. split; [exact W1|]. intros k. rewrite U4. apply W2.
-    + rewrite L in Hl. inversion Hl; subst. apply Hwr; exact Hcl.
-  - intros a o Hl. destruct (H a) as [(U1&_&_&U4&_)|(o'&y'&L&_&_&_&_&_&G&_)].
-    + rewrite U1 in Hl. destruct (R_good s r HR a o Hl) as (G1&G2&G3). rewrite T.
-      split; [|split; assumption]. intros Hs k Hd. rewrite U4. apply G1; assumption.
-    + rewrite L in Hl. inversion Hl; subst. exact G.
-  - intros a Hw Hs. destruct (H a) as [(U1&_&_&U4&U5&_&U7)|(o'&y'&L&A&_&_&_&_&_&W)].
-    + rewrite U7 in Hw. unfold r_get in Hs. rewrite U5 in Hs.
-      destruct (R_wr s r HR a Hw Hs) as [W1 W2]. rewrite T. split.
-      * intros k. rewrite U4. apply W1.
-      * intros o Hl. rewrite U1 in Hl. apply W2; exact Hl.
-    + unfold r_get in Hs. rewrite A in Hs. destruct (W Hw Hs) as [W1 W2]. split; [exact W1|].
-      intros o Hl. rewrite L in Hl. inversion Hl; subst. exact W2.
+  intros [_ HR] T X H. split; [exact X|]. intros x. destruct (H x) as [U|G].
+  - eapply Rat_unch; eauto.
+  - apply Rat_gen; exact G.
 Qed.
 
 (** ---- facts about the object a setter works on ---- *)
